@@ -10,7 +10,8 @@ SCHEMA = {
     'XtcePacketDefinition': {'containers': ('smap', 'SequenceContainer'), 'root_container_name': ('opt', 'str')},
     'Parameter': {'name': 'str', 'parameter_type': ('rec', ['IntegerParameterType', 'FloatParameterType',
                                                             'StringParameterType', 'BinaryParameterType',
-                                                            'EnumeratedParameterType', 'BooleanParameterType'])},
+                                                            'EnumeratedParameterType', 'BooleanParameterType',
+                                                            'AbsoluteTimeParameterType', 'RelativeTimeParameterType'])},
 }
 PKT_VALUES = ('mobj', 'CCSDSPacket', {'__items__': ('odict', {'kinds': ['IntParameter', 'FloatParameter', 'StrParameter'],
                                                             'rawkinds': ['int', 'real', 'str']})})
@@ -56,6 +57,9 @@ def _gen_stream(rng, tier, variant):
             r['opts']['root_container_name'] = r['def']['root']
         if 'buffer_given' in (variant or ''):
             r['opts']['buffer_read_size_bytes'] = rng.choice([1, 5, 7, 64, 4096])
+        if (variant or '').endswith('_source'):
+            # a file object / a socket delivering the same bytes in some fragmentation
+            r['source'] = [variant.split('_')[0], rng.choice([[], [1], [3, 1, 7], [64]])]
         yield r
 
 
@@ -167,7 +171,11 @@ def _build_stream(r):
     def make():
         from contracts._defgen import build_definition
         raws = [bytes.fromhex(p) for p in r['pkts']]
-        return {'self': build_definition(r['def']), 'binary_data': b''.join(raws), 'opts': dict(r['opts']),
+        data = b''.join(raws)
+        if r.get('source'):
+            from contracts._gen import build_source
+            data = build_source(r['source'][0], data, r['source'][1])
+        return {'self': build_definition(r['def']), 'binary_data': data, 'opts': dict(r['opts']),
                 'raws': raws}
     return {'make': make, 'invoke': _drain}
 
@@ -335,9 +343,15 @@ CONTRACTS = [
                 'secondary_header_bytes': 'int', 'yield_unrecognized_packet_errors': 'bool', 'show_progress': 'bool',
                 'skip_header_bytes': 'int'},
         # the two optional pass-through arguments, one variant per combination (verified in parallel)
-        variants={f'{rn}_{bn}': {'params': {'root_container_name': rt, 'buffer_read_size_bytes': bt}}
-                  for rn, rt in (('root_default', 'none'), ('root_given', 'str'))
-                  for bn, bt in (('buffer_default', 'none'), ('buffer_given', 'int'))},
+        variants=dict(
+            {f'{rn}_{bn}': {'params': {'root_container_name': rt, 'buffer_read_size_bytes': bt}}
+             for rn, rt in (('root_default', 'none'), ('root_given', 'str'))
+             for bn, bt in (('buffer_default', 'none'), ('buffer_given', 'int'))},
+            # the other two source kinds (E1: the assumed reader model of the framer's contract)
+            file_source={'params': {'binary_data': ('source', 'file'), 'root_container_name': 'none',
+                                    'buffer_read_size_bytes': 'none'}},
+            socket_source={'params': {'binary_data': ('source', 'socket'), 'root_container_name': 'none',
+                                      'buffer_read_size_bytes': 'none'}}),
         ghost={'yield_type': 'yieldtag'},
         requires=[('skip_header_bytes >= 0 and not show_progress and secondary_header_bytes >= 0', ['__proof__']),
                   ('defn_ok(self)', ['__proof__'])],
